@@ -238,6 +238,22 @@ def run_eg_class(ctx, rng, S):
     ctx.check(bool(np.allclose(p, mix, atol=1e-12)), "positive_probability_is_not_the_weighted_mixture_of_stored_predictors",
               got=p[:10].tolist(), expected=mix[:10].tolist(), wit=wit)
     sampling_checks(ctx, lambda rs: eg.predict(Xq, random_state=rs), p, S, wit, "ExponentiatedGradient")
+    # the same query container edited in place and asked again; single-row queries
+    Xe = np.array(np.asarray(Xq), dtype=float, copy=True)
+    p_a = np.asarray(eg._pmf_predict(Xe))[:, 1]
+    perm = rng.permutation(len(Xe))
+    Xe[:] = Xe[perm]
+    p_b = np.asarray(eg._pmf_predict(Xe))[:, 1]
+    ctx.ev("mixture_rows_compared", len(p_b))
+    ctx.check(bool(np.allclose(p_b, mix[perm], atol=1e-12)) and bool(np.allclose(p_a, mix, atol=1e-12)),
+              "pmf_of_a_query_edited_in_place_is_not_the_mixture_of_its_current_rows", before=p_a[:8].tolist(), after=p_b[:8].tolist(), expected_after=mix[perm][:8].tolist(), wit=wit)
+    for i in (0, len(Xe) - 1):
+        one = np.asarray(eg._pmf_predict(Xe[i:i + 1]))
+        ctx.ev("mixture_rows_compared")
+        ctx.check(one.shape == (1, 2) and abs(one[0, 1] - mix[perm][i]) <= 1e-12 and abs(one.sum() - 1) <= 1e-12, "single_row_query_pmf_wrong", row=int(i), got=one.tolist(),
+                  expected=float(mix[perm][i]), wit=wit)
+        o1 = np.asarray(eg.predict(Xe[i:i + 1], random_state=0))
+        ctx.check(o1.shape == (1,) and o1[0] in (0, 1), "single_row_query_predict_wrong", got=o1.tolist(), wit=wit)
 
 
 def run_eg_regr(ctx, rng, S):
@@ -305,3 +321,6 @@ def run_eg_regr(ctx, rng, S):
               probability=worst[4], hoeffding_bound=eps, seeds=S, wit=wit)
     ctx.ev("reproducibility_checks")
     ctx.check(bool(np.array_equal(first, np.asarray(eg.predict(Xq, random_state=0), float))), "same_seed_different_predictions:regression", wit=wit)
+    one = np.asarray(eg.predict(Xq[:1], random_state=1), float)
+    allowed = {vals[t][0] for t in support}
+    ctx.check(one.shape == (1,) and float(one[0]) in allowed, "single_row_query_predict_wrong:regression", got=one.tolist(), allowed=sorted(allowed), wit=wit)
